@@ -49,8 +49,7 @@ class Image(DirectivePlugin):
 
     def __call__(self, directive: "BaseDirective", md: "Markdown") -> None:
         directive.register(self.NAME, self.parse)
-        assert md.renderer is not None
-        if md.renderer.NAME == "html":
+        if md.renderer and md.renderer.NAME == "html":
             md.renderer.register("block_image", render_block_image)
 
 
@@ -143,8 +142,7 @@ class Figure(DirectivePlugin):
     def __call__(self, directive: "BaseDirective", md: "Markdown") -> None:
         directive.register(self.NAME, self.parse)
 
-        assert md.renderer is not None
-        if md.renderer.NAME == "html":
+        if md.renderer and md.renderer.NAME == "html":
             md.renderer.register("figure", render_figure)
             md.renderer.register("block_image", render_block_image)
             md.renderer.register("figcaption", render_figcaption)
